@@ -118,6 +118,9 @@ def proof_part(pid: str, tier: str, plan: dict, out: dict) -> int:
             print(f"UNDECIDED property={pid} function={c.target}: zero obligations generated")
             code = max(code, 2)
         all_vcs.extend(rep.vcs)
+    if plan.get("lemmas"):
+        from pyvc.lemmas import lemma_vcs
+        all_vcs.extend(lemma_vcs())
     trusted_used = sorted({(k, (type(c).__doc__ or "").strip().split("\n")[0]) for k, c in REGISTRY.items() if c.trusted})
     t0 = time.time()
     results = solve_all(all_vcs, timeout)
